@@ -469,6 +469,11 @@ def run(ctx, out, tier):
         _detect_once(ctx, out, _dv, rule="C18.detect")
     else:
         out.inst("C18.detect", 0, 4)
+    # what a validator found is only reported if the report keeps every violation (shared with C11)
+    from rules.C11 import check_items as _check_items
+    shared.run_renamed(out, lambda o: _check_items(ctx, o), "C11", "C18")
+    from rules.shared import check_detect_cases
+    check_detect_cases(ctx, out, ["check-lua"], rule="C18.detectcase")
     shared.sh_flags(ctx, out, "check-lua", "C18.flags")
     asyncval.check_index_alignment(ctx, out, "C18.index", NAME)
     return meta()
